@@ -1,17 +1,32 @@
 import BufProofs.Lemmas.FormatLemmas
 /-
   C07 — Formatting preserves meaning and comments and is idempotent.
-  Level: translation validation.  What is PROVED here is about the model in BufModel/Format.lean:
-  the lexer, the rewrite relation, the header canonicalisation and the SOUNDNESS of the executable
-  checker `validFormat`.  What is VALIDATED per program (correspondence harness) is that the real
-  formatter's output is accepted by the checker, and that the model's lexer / role automaton /
-  header canonicalisation agree with protocompile's AST and the formatter's actual header order.
-  NOT proved: that the 2.4k-line printer emits `validFormat` output for every input.
+  Level: TRANSLATION VALIDATION.  The 2.4k-line AST printer is NOT modelled and nothing here is a
+  theorem about it.  What is proved is about the executable checker that the driver runs on every
+  (input, real formatter output) pair:
+
+    driver accepts  ⇔  validFormat inp out ∧ isFormatted out ∧ format(out) = out   (last one: harness)
+
+  * `checker_sound`, `checker_sound_tokens`, `header_permutation`: acceptance implies an explicit
+    RELATION BETWEEN `inp` AND `out`: the significant tokens of `out` (with the comments
+    protocompile attributes to them) are those of `inp` after the body-level token rewrites
+    (`Rewrites`: each constructor one documented rewrite), cut into file-level statements
+    (`stmts_flatten`: the cut loses/duplicates nothing) and rearranged as `HeaderRel` allows.
+  * `comments_preserved`, `comments_attached`: no comment lost or invented, and every comment is
+    attached to the same token of a token-identical declaration.
+  * `formatted_accepts_itself`, `formatted_fixed_point`, `header_idempotent`: the normal form.
+  What is VALIDATED per program (correspondence harness): the real formatter's output is accepted;
+  the model's lexer / comment attribution / role automaton / header canonicalisation agree with
+  protocompile's AST and with the header order the formatter actually produced.
+  NOT proved: that the printer emits accepted output for every input; that protocompile's parser
+  is a function of the significant tokens (library assumption); that a token-level `Rewrites`
+  step preserves the PARSE (there is no parser model) — the roles are tied to protocompile's AST
+  only per program (counts of empty statements / separators / angle brackets / missing colons).
 -/
 namespace BufProofs.C07
 open BufModel.Format
 
-/-! ### lexer -/
+/-! ### lexer and decoration: loss-free re-presentations of the text -/
 
 /-- Concatenating the token texts gives back the input, for every input. -/
 theorem lexer_roundtrip (s : Str) : (lex s).flatMap (·.text) = s := lexAux_roundtrip _ s
@@ -21,35 +36,20 @@ theorem lexer_roundtrip (s : Str) : (lex s).flatMap (·.text) = s := lexAux_roun
 theorem lexer_total (s : Str) : ∀ t ∈ lex s, t.kind ≠ .fuel ∧ t.text ≠ [] :=
   lexAux_no_fuel _ s (Nat.le_refl _)
 
+/-- The decorated stream has exactly the significant tokens (plus the EOF token) ... -/
+theorem decorate_toks (ts : List Token) : toks (decorate ts) = sig ts ++ [eofTok] := decorate_toks_aux ts
+
+/-- ... and exactly the comments, in source order: attribution loses and invents nothing. -/
+theorem decorate_comments (ts : List Token) : commentsOf (decorate ts) = (comments ts).map commentKey :=
+  decorate_comments_aux ts
+
 example : (sig (lex "a=1;//c\n".toList)).map (·.text) = ["a".toList, "=".toList, "1".toList, ";".toList] := by decide
 example : (lex "x='a\\'b'/*c*/1e-3".toList).map (·.kind) = [.ident, .sym, .str, .blockComment, .num] := by decide
+-- attribution as protocompile does it: `// t` trails `;`, `/* l */` leads `b`, the last comment is EOF's
+example : (decorate (lex "a; // t\n/* l */ b; // e".toList)).map (fun d => (d.tok.text, d.lead.length, d.trail.length))
+    = [("a".toList, 0, 0), (";".toList, 0, 1), ("b".toList, 1, 0), (";".toList, 0, 1), ([], 0, 0)] := by decide
 
-/-! ### the documented rewrites -/
-
-/-- what the checker accepts for the file header -/
-structure ImportsRel (ins outs : List Stmt) : Prop where
-  /-- the output imports are a permutation of the input imports minus the elided ones -/
-  split : ∃ kept elided : List Stmt, (kept ++ elided).Perm ins ∧ kept.map stmtText = outs.map stmtText ∧
-    /- an elided import carries no comment and its file is imported by a kept statement -/
-    ∀ e ∈ elided, importHasComment e = false ∧ ∃ k ∈ outs, importName k = importName e
-
-/-- a STABLE reordering: a permutation that keeps the relative order of the statements of every
-    option name -/
-structure OptionsRel (ins outs : List (List Token)) : Prop where
-  perm : outs.Perm ins
-  stable : ∀ k, outs.filter (optionKeyT · = k) = ins.filter (optionKeyT · = k)
-
-/-- `sig out ≈ sig inp` under exactly the documented rewrites. -/
-structure FormatRel (inp out : Str) : Prop where
-  /-- body-level rewrites of the input: empty statements dropped, message-literal `<>` → `{}`,
-      optional separators dropped, missing `:` added — each step is a constructor of `Rewrites` -/
-  body : Rewrites (annotate (sig (lex inp))) (norm (sig (lex inp)))
-  syn : (headerOf inp).syn.map stmtText = (headerOf out).syn.map stmtText
-  pkg : (headerOf inp).pkg.toList.map stmtText = (headerOf out).pkg.toList.map stmtText
-  /-- everything that is not syntax/package/import/option: same tokens, same order -/
-  rest : (headerOf inp).rest.map stmtText = (headerOf out).rest.map stmtText
-  imports : ImportsRel (headerOf inp).imports (headerOf out).imports
-  options : OptionsRel ((headerOf inp).options.map stmtText) ((headerOf out).options.map stmtText)
+/-! ### the documented body-level rewrites -/
 
 theorem roleOf_ok (st : AState) (t : Token) (rest : List Token) :
     ((roleOf st t rest).1 = .dropEmpty → t.is ";") ∧
@@ -72,104 +72,218 @@ theorem annotateFrom_ok (st : AState) (ts : List Token) :
     · exact roleOf_ok st t rest
     · exact ih _ p hp
 
-/-- The normaliser only ever applies the documented rewrites. -/
+/-- The normaliser only ever applies the documented rewrites: only `;` is dropped as an empty
+    statement, only `,`/`;` as a separator, only `<`/`>` become `{`/`}`, only `:` is inserted. -/
 theorem norm_rewrites (ts : List Token) : Rewrites (annotate ts) (norm ts) :=
   norm_rewrites_aux _ (annotateFrom_ok {} ts)
 
-theorem eraseStmt_spec (p : Stmt → Bool) (l l' : List Stmt) (h : eraseStmt p l = some l') :
-    ∃ y, p y = true ∧ (y :: l').Perm l := by
-  induction l generalizing l' with
-  | nil => simp [eraseStmt] at h
-  | cons x xs ih =>
-    unfold eraseStmt at h
-    by_cases hx : p x = true
-    · simp [hx] at h; subst h; exact ⟨x, hx, List.Perm.refl _⟩
-    · simp [hx] at h
-      obtain ⟨r, hr, rfl⟩ := h
-      obtain ⟨y, hy, hperm⟩ := ih r hr
-      exact ⟨y, hy, (List.Perm.swap x y r).trans (List.Perm.cons x hperm)⟩
+/-- The decorated rewrite projects to the token rewrite: comments do not influence it. -/
+theorem normD_tokens (ds : List DTok) : toks (normD ds) = norm (toks ds) := normD_toks ds
 
-theorem matchImports_spec (ins outs el : List Stmt) (h : matchImports ins outs = some el) :
-    ∃ kept, (kept ++ el).Perm ins ∧ kept.map stmtText = outs.map stmtText := by
-  induction outs generalizing ins with
-  | nil => simp [matchImports] at h; subst h; exact ⟨[], List.Perm.refl _, rfl⟩
-  | cons o os ih =>
-    unfold matchImports at h
-    split at h
-    · rename_i ins' he
-      obtain ⟨y, hy, hperm⟩ := eraseStmt_spec _ _ _ he
-      obtain ⟨kept, hk, hm⟩ := ih ins' h
-      simp at hy
-      exact ⟨y :: kept, (List.Perm.cons y hk).trans hperm, by simp [hm, hy.1]⟩
-    · split at h
-      · rename_i ins' he
-        obtain ⟨y, hy, hperm⟩ := eraseStmt_spec _ _ _ he
-        obtain ⟨kept, hk, hm⟩ := ih ins' h
-        simp at hy
-        exact ⟨y :: kept, (List.Perm.cons y hk).trans hperm, by simp [hm, hy]⟩
-      · simp at h
+/-- Token conservation of the statement splitter: the statements, concatenated, are the stream
+    (answers the audit: `headerOf` had no such lemma). -/
+theorem stmts_flatten (ds : List DTok) : (stmts ds).flatten = ds := stmts_flatten_aux ds
 
-theorem importsOK_sound (ins outs : List Stmt) (h : importsOK ins outs = true) : ImportsRel ins outs := by
-  unfold importsOK at h
-  split at h
-  · rename_i el hm
-    obtain ⟨kept, hk, hmap⟩ := matchImports_spec _ _ _ hm
-    refine ⟨kept, el, hk, hmap, ?_⟩
-    intro e he
-    have := (List.all_eq_true.mp h) e he
-    simp at this
-    obtain ⟨h1, k, hk1, hk2⟩ := this
-    exact ⟨h1, k, hk1, hk2⟩
-  · simp at h
+/-- Partition into the five header classes loses and duplicates no statement. -/
+theorem header_partition (ss : List Stmt) : (parseHeader ss).render.Perm ss := parseHeader_perm ss
 
-theorem optionsOKT_sound (ins outs : List (List Token)) (h : optionsOKT ins outs = true) :
-    OptionsRel ins outs := by
-  unfold optionsOKT at h
+/-- Comment-gap normalisation touches neither tokens nor the comment sequence. -/
+theorem gapNorm_conservative (s : Stmt) : stmtText (gapNorm s) = stmtText s ∧ commentsOf (gapNorm s) = commentsOf s :=
+  ⟨gapNorm_toks s, gapNorm_comments s⟩
+
+/-! ### soundness of the checker -/
+
+/-- The relation the checker decides, between the decorated streams of input and output. -/
+structure FormatRel (di dout : List DTok) : Prop where
+  /-- no token that the rewrites drop carries a comment -/
+  clean : dropsClean (annotateD di) = true
+  /-- the statements of the output are those of the rewritten input, hoisted / sorted -/
+  header : HeaderRel ((stmts (normD di)).map gapNorm) ((stmts dout).map gapNorm)
+
+/-- SOUNDNESS of the translation validator (on decorated streams). -/
+theorem checker_sound (inp out : Str) (h : validFormat inp out = true) :
+    FormatRel (decorate (lex inp)) (decorate (lex out)) := by
+  unfold validFormat validD at h
   simp only [Bool.and_eq_true] at h
-  obtain ⟨hp, hall⟩ := h
-  have hperm : outs.Perm ins := List.isPerm_iff.mp hp
-  refine ⟨hperm, ?_⟩
-  intro k
-  by_cases hk : k ∈ ins.map optionKeyT
-  · have := (List.all_eq_true.mp hall) k hk
-    simpa using this
-  · have e1 : ins.filter (optionKeyT · = k) = [] := by
-      apply List.filter_eq_nil_iff.mpr
-      intro a ha hka
-      exact hk (List.mem_map.mpr ⟨a, ha, by simpa using hka⟩)
-    have e2 : outs.filter (optionKeyT · = k) = [] := by
-      apply List.filter_eq_nil_iff.mpr
-      intro a ha hka
-      exact hk (List.mem_map.mpr ⟨a, hperm.subset ha, by simpa using hka⟩)
-    rw [e1, e2]
+  exact ⟨h.1, headerOK_sound _ _ h.2⟩
 
-theorem sameToks_sound (a b : List Stmt) (h : sameToks a b = true) : a.map stmtText = b.map stmtText := by
-  simpa [sameToks] using h
+/-- SOUNDNESS, spelled out on the significant tokens of the two TEXTS.  If the checker accepts
+    (inp, out) there are statement lists `SI`, `SO` such that
+    * `SI`, concatenated, is the token stream of `inp` (EOF appended) after the body-level rewrites,
+      and those rewrites are an instance of the explicit relation `Rewrites`;
+    * `SO`, concatenated, is the token stream of `out` (EOF appended) — unchanged;
+    * `SO` is `SI` rearranged as `HeaderRel` allows: syntax / package / all other declarations
+      identical and in the same order, imports permuted minus comment-free duplicates, options
+      reordered stably — and hence (`header_permutation`) a permutation of `SI` minus the elided imports.
+    What this does NOT say: that two token streams so related have the same PARSE — that step is
+    the library assumption (protocompile's parser is a function of the significant tokens) plus
+    the reading of `Rewrites`/`HeaderRel` as meaning-preserving; the roles are validated against
+    protocompile's AST per program only. -/
+theorem checker_sound_tokens (inp out : Str) (h : validFormat inp out = true) :
+    ∃ SI SO : List Stmt,
+      toks SI.flatten = norm (sig (lex inp) ++ [eofTok]) ∧
+      Rewrites (annotate (sig (lex inp) ++ [eofTok])) (toks SI.flatten) ∧
+      toks SO.flatten = sig (lex out) ++ [eofTok] ∧
+      HeaderRel SI SO := by
+  have hr := checker_sound inp out h
+  refine ⟨_, _, ?_, ?_, ?_, hr.header⟩
+  · rw [toks_flatten_gapNorm, stmts_flatten, normD_toks, decorate_toks]
+  · rw [toks_flatten_gapNorm, stmts_flatten, normD_toks, decorate_toks]
+    exact norm_rewrites _
+  · rw [toks_flatten_gapNorm, stmts_flatten, decorate_toks]
 
-/-- SOUNDNESS of the translation validator: whatever input and output text it accepts, the
-    significant tokens of the output are those of the input under exactly the documented rewrites
-    (the explicit relation `FormatRel`).  protocompile's parser being a function of the significant
-    tokens, the two files then have the same parse up to header order — that last step is the
-    stated library assumption. -/
-theorem checker_sound (inp out : Str) (h : validFormat inp out = true) : FormatRel inp out := by
-  unfold validFormat at h
-  simp only [Bool.and_eq_true] at h
-  obtain ⟨⟨⟨⟨⟨h1, h2⟩, h3⟩, h4⟩, h5⟩, _⟩ := h
-  exact {
-    body := norm_rewrites _
-    syn := sameToks_sound _ _ h1
-    pkg := sameToks_sound _ _ h2
-    rest := sameToks_sound _ _ h3
-    imports := importsOK_sound _ _ h4
-    options := optionsOKT_sound _ _ h5 }
+/-- What `HeaderRel` implies globally: the output statements are a permutation of the input
+    statements minus the elided ones; every elided statement is an import without any comment
+    whose file is imported by a kept import. -/
+theorem header_permutation (si so : List Stmt) (h : HeaderRel si so) :
+    ∃ elided : List Stmt, (so ++ elided).Perm si ∧
+      ∀ e ∈ elided, cls e = .imp ∧ stmtComments e = [] ∧ ∃ k ∈ so, cls k = .imp ∧ importName k = importName e :=
+  h.perm
 
-/-- Every comment of the input is still in the output (as a multiset of comment contents up to
-    the documented re-layout of comment text). -/
+/-- The header rearrangement as a CHAIN OF ELEMENTARY STEPS (`HStep`): whatever `HeaderRel`
+    relates is reachable by finitely many steps, each of which either exchanges two adjacent
+    file-level statements whose relative order does not matter (an import with anything;
+    statements of different classes — this is the hoisting; two options with different names) or
+    removes a comment-free import of a file that another remaining import statement imports. -/
+theorem header_chain (si so : List Stmt) (h : HeaderRel si so) : HSteps si so := h.chain
+
+/-- Every elementary step preserves what can be stated about the meaning on statement lists:
+    syntax, package and all declarations in their order; for every option name the sequence of
+    its statements (a repeated option keeps the order of its values); the set of imported files;
+    all comments with their anchors.  (That equal such data give equal descriptors is the library
+    assumption — there is no parser model.) -/
+theorem step_preserves_meaning (a b : List Stmt) (h : HStep a b) : SameMeaning a b := h.sound
+
+theorem chain_preserves_meaning (a b : List Stmt) (h : HSteps a b) : SameMeaning a b := h.sound
+
+/-- SOUNDNESS as a rewrite chain between the two texts: token-level `Rewrites` on the input
+    stream, then `HSteps` on its statements, ends in the statements of the output stream. -/
+theorem checker_sound_chain (inp out : Str) (h : validFormat inp out = true) :
+    ∃ SI SO : List Stmt,
+      Rewrites (annotate (sig (lex inp) ++ [eofTok])) (toks SI.flatten) ∧
+      HSteps SI SO ∧
+      toks SO.flatten = sig (lex out) ++ [eofTok] := by
+  obtain ⟨SI, SO, _, h2, h3, h4⟩ := checker_sound_tokens inp out h
+  exact ⟨SI, SO, h2, h4.chain, h3⟩
+
+-- the two kinds of step are possible, and a forbidden exchange is not a step's premise
+example : HStep [exStmtA, exStmtB] [exStmtB, exStmtA] := .swap [] [] _ _ (by decide)
+example : conflict exStmtB exStmtB := by decide
+
+/-! ### comments -/
+
+/-- No comment is lost or invented: the comment contents of the output are a permutation of
+    those of the input (content = the words of the comment: the formatter re-indents block
+    comments and turns `// x` into `/* x */` when it prints it in-line). -/
 theorem comments_preserved (inp out : Str) (h : validFormat inp out = true) :
     ((comments (lex out)).map commentKey).Perm ((comments (lex inp)).map commentKey) := by
-  unfold validFormat at h
+  have hr := checker_sound inp out h
+  obtain ⟨el, hp, hel⟩ := hr.header.perm
+  -- comments of the output statements ++ comments of elided = comments of input statements
+  have h1 : (commentsOf ((stmts (decorate (lex out))).map gapNorm ++ el).flatten).Perm
+      (commentsOf ((stmts (normD (decorate (lex inp)))).map gapNorm).flatten) := by
+    rw [← anchors_keys, ← anchors_keys]
+    exact (List.Perm.flatMap_right stmtAnchors hp).map _
+  have hel0 : commentsOf el.flatten = [] := by
+    rw [← anchors_keys]
+    have : anchors el = [] := by
+      unfold anchors
+      apply List.flatMap_eq_nil_iff.mpr
+      intro e he
+      exact stmtAnchors_nil_of_no_comments e (hel e he).2.1
+    rw [this]; rfl
+  rw [List.flatten_append, commentsOf_append, hel0, List.append_nil, commentsOf_flatten_gapNorm,
+    commentsOf_flatten_gapNorm, stmts_flatten, stmts_flatten, decorate_comments] at h1
+  exact h1.trans ((normD_comments _ hr.clean).trans (by rw [decorate_comments]))
+
+/-- "Every comment stays attached to the same declaration."  With `SI` the declarations of the
+    rewritten input and `SO` those of the output (both with interior comment gaps normalised):
+    * the anchors of `SI` are exactly the comments of `inp`, the anchors of `SO` exactly the
+      comments of `out` (nothing escapes the comparison);
+    * the anchors of `SO` are a permutation of the anchors of `SI`: for every comment of the input
+      the output has the same comment attached on the same side (leading / trailing) of the token
+      with the same index in a declaration with the same token text.
+    Moves that are built into the comparison (documented): (a) a comment BETWEEN two tokens of one
+    declaration counts as leading for the right token unless the left token is `;`, `{` or a
+    body-closing `}` (`gapNorm`); (b) the trailing comment of a dropped message-literal separator
+    moves to the token before it (`absorb`); (c) a token that is dropped carries no comment
+    (`FormatRel.clean`), otherwise the run is rejected. -/
+theorem comments_attached (inp out : Str) (h : validFormat inp out = true) :
+    let SI := (stmts (normD (decorate (lex inp)))).map gapNorm
+    let SO := (stmts (decorate (lex out))).map gapNorm
+    ((anchors SI).map (·.key)).Perm ((comments (lex inp)).map commentKey) ∧
+    (anchors SO).map (·.key) = (comments (lex out)).map commentKey ∧
+    (anchors SO).Perm (anchors SI) := by
+  intro SI SO
+  have hr := checker_sound inp out h
+  refine ⟨?_, ?_, ?_⟩
+  · rw [anchors_keys, commentsOf_flatten_gapNorm, stmts_flatten, ← decorate_comments]
+    exact normD_comments _ hr.clean
+  · rw [anchors_keys, commentsOf_flatten_gapNorm, stmts_flatten, decorate_comments]
+  · obtain ⟨el, hp, hel⟩ := hr.header.perm
+    have h1 := List.Perm.flatMap_right stmtAnchors hp
+    have : el.flatMap stmtAnchors = [] := by
+      apply List.flatMap_eq_nil_iff.mpr
+      intro e he
+      exact stmtAnchors_nil_of_no_comments e (hel e he).2.1
+    rw [List.flatMap_append, this, List.append_nil] at h1
+    exact h1
+
+/-! ### the normal form -/
+
+/-- A formatted text is accepted as its own format. -/
+theorem formatted_accepts_itself (x : Str) (h : isFormatted x = true) : validFormat x x = true := by
+  unfold isFormatted formattedD at h
   simp only [Bool.and_eq_true] at h
-  exact List.isPerm_iff.mp (by simpa [commentsOK] using h.2)
+  obtain ⟨⟨⟨hk, _⟩, _⟩, _⟩ := h
+  unfold validFormat validD
+  rw [normD_keep _ hk, dropsClean_keep _ hk, headerOK_refl]
+  rfl
+
+/-- The modelled token-level formatter (body rewrites; split; hoist, sort, elide; concatenate)
+    leaves a formatted text unchanged: `isFormatted` IS its fixed-point set, tokens and comments.
+    Together with `header_idempotent` this is the idempotence statement that can be proved; that
+    the REAL printer reproduces its own output is checked per program (`format(out) = out`). -/
+theorem formatted_fixed_point (x : Str) (h : isFormatted x = true) :
+    fmtModel (decorate (lex x)) = decorate (lex x) := by
+  unfold isFormatted formattedD at h
+  simp only [Bool.and_eq_true, beq_iff_eq] at h
+  obtain ⟨⟨⟨hk, hc⟩, _⟩, _⟩ := h
+  unfold fmtModel
+  rw [normD_keep _ hk, hc, stmts_flatten]
+
+
+/-! ### non-vacuity: the checker accepts a real formatter run and rejects mutated outputs -/
+
+-- `exIn` / `exOut` (Lemmas/FormatLemmas.lean): a real run — imports sorted (the trailing comment travels with
+-- its import), `<>` → `{}`, the separator `,` dropped and its trailing comment moved to the value, empty statement dropped
+example : validFormat exIn exOut = true := by decide +kernel
+example : isFormatted exOut = true := by decide +kernel
+-- a comment dropped (`// ta`)
+example : validFormat exIn "import \"a\"; // ia\nimport \"b\";\n\noption x = {\n  a: 1 // s\n  b: {}\n};\n\nmessage M {\n  int32 a = 1;\n  /* lb */\n  int32 b = 2;\n}\n".toList = false := by decide +kernel
+-- the trailing comment of field a moved to the NEXT declaration (now leads field b)
+example : validFormat exIn "import \"a\"; // ia\nimport \"b\";\n\noption x = {\n  a: 1 // s\n  b: {}\n};\n\nmessage M {\n  int32 a = 1;\n  // ta\n  /* lb */\n  int32 b = 2;\n}\n".toList = false := by decide +kernel
+-- the leading comment of field b attached to the PREVIOUS declaration (now trails field a)
+example : validFormat "message M{int32 a=1;\n /* lb */ int32 b=2;}".toList "message M {\n  int32 a = 1; /* lb */\n  int32 b = 2;\n}\n".toList = false := by decide +kernel
+example : validFormat "message M{int32 a=1;\n /* lb */ int32 b=2;}".toList "message M {\n  int32 a = 1;\n  /* lb */\n  int32 b = 2;\n}\n".toList = true := by decide +kernel
+-- the comment of import "a" printed on import "b"
+example : validFormat "import \"b\";import \"a\"; // ia\n".toList "import \"a\";\nimport \"b\"; // ia\n".toList = false := by decide +kernel
+-- two values of one repeated option swapped / kept
+example : validFormat "option (r)=1;option (r)=2;".toList "option (r) = 2;\noption (r) = 1;\n".toList = false := by decide +kernel
+example : validFormat "option (r)=1;option (a)=2;".toList "option (a) = 2;\noption (r) = 1;\n".toList = true := by decide +kernel
+-- a token changed (sign dropped; literal respelled with another value)
+example : validFormat "message M{int32 a=-1;}".toList "message M {\n  int32 a = 1;\n}\n".toList = false := by decide +kernel
+example : validFormat "message M{int32 a=0x10;}".toList "message M {\n  int32 a = 10;\n}\n".toList = false := by decide +kernel
+-- a duplicate import that carries a comment must not be elided; without comment it may
+example : validFormat "import \"a\";//c\nimport \"a\";".toList "import \"a\";\n".toList = false := by decide +kernel
+example : validFormat "import \"a\";import 'a';".toList "import \"a\";\n".toList = true := by decide +kernel
+-- a comment on an empty statement would be lost with it: rejected whatever the output is
+example : validFormat "message M{}\n// c\n;".toList "message M {}\n".toList = false := by decide +kernel
+-- not in normal form: two spaces / options unsorted / an empty statement left / import after a message
+example : isFormatted "option (r) = 1;\noption  (s) = 2;\n".toList = false := by decide +kernel
+example : isFormatted "option (r) = 1;\noption (a) = 2;\n".toList = false := by decide +kernel
+example : isFormatted "option (r) = 1;;\n".toList = false := by decide +kernel
+example : isFormatted "message M {}\n\nimport \"a\";\n".toList = false := by decide +kernel
 
 /-! ### header canonicalisation -/
 
@@ -182,6 +296,17 @@ theorem header_idempotent (h : Header) : canon (canon h) = canon h := by
   have ho : Sorted ltOption (isort ltOption h.options) := isort_sorted _ _ ltOption_asymm ltOption_negtrans
   simp only [canon, canonImports, canonOptions]
   rw [isort_of_sorted _ _ hsub, elide_idem, isort_of_sorted _ _ ho]
+
+set_option maxRecDepth 100000 in
+/-- The recorded finding `comment-dropped:comment-inside-concatenated-string` in the MODEL of the
+    code as it is: `importHasComment` does not look between the parts of a concatenated file
+    name, so the modelled canonicalisation elides that duplicate import together with its
+    comment.  (The checker rejects such a run: the elided statement carries a comment.) -/
+theorem elision_loses_comment_counterexample :
+    let ss := stmts (decorate (lex "import \"a.proto\"; import \"a.\" /* c */ \"proto\";".toList))
+    (canonImports (ofCls .imp ss)).length = 1 ∧
+      commentsOf (canonImports (ofCls .imp ss)).flatten = [] ∧ commentsOf ss.flatten ≠ [] := by
+  decide +kernel
 
 /-- The canonical option order is sorted and a permutation of the input. -/
 theorem canonOptions_sorted_perm (l : List Stmt) : SortedPermOf ltOption l (canonOptions l) :=
@@ -200,11 +325,12 @@ theorem option_order_preserved_by_stable (l : List Stmt) (k : List Nat) :
     unfold ltOption; rw [hy, hpx]; exact lexLt_irrefl _
   rw [this] at hyx; exact absurd hyx (by simp)
 
-/-- ... and consequently the checker's option clause accepts the modelled (fixed) formatter. -/
-theorem option_order_preserved_iff_stable_partial (l out : List Stmt) (h : out = canonOptions l) :
-    (∀ k, out.filter (optionKey · = k) = l.filter (optionKey · = k)) ∧ SortedPermOf ltOption l out := by
-  subst h
-  exact ⟨option_order_preserved_by_stable l, canonOptions_sorted_perm l⟩
+/-- The modelled (fixed) option sort satisfies the checker's option clause.  PARTIAL with respect
+    to "iff": the converse (a sorted permutation that keeps every class order IS the stable sort)
+    is not proved. -/
+theorem option_order_preserved_iff_stable_partial (l : List Stmt) :
+    OptionsRel l (canonOptions l) :=
+  ⟨isort_perm _ _, option_order_preserved_by_stable l⟩
 
 /-- sort.Slice (pre-fix) may return ANY sorted permutation.  Concrete instance: values 1,2 of one
     repeated option; the permutation [2,1] is sorted (equal keys) but not the source order. -/
@@ -215,26 +341,5 @@ theorem unstable_sort_counterexample :
     SortedPermOf lt l out ∧ out.filter (·.1 = 7) ≠ l.filter (·.1 = 7) ∧
       (isort lt l).filter (·.1 = 7) = l.filter (·.1 = 7) := by
   refine ⟨⟨by decide, by unfold Sorted; decide⟩, by decide, by decide⟩
-
-/-! ### pending-space automaton -/
-
-/-- A pending space is only ever written after a character that is not whitespace (nor the start
-    of the output), and never in front of a newline, ';' or ',': `Space(); Space(); WriteString`
-    cannot produce a doubled or dangling space. -/
-theorem space_automaton_no_double_space (st : WState) (elem : Str) (h : emitsSpace st elem = true) :
-    st.last ≠ ' ' ∧ st.last ≠ '\n' ∧ st.last ≠ '\t' ∧ st.last ≠ '\x00' ∧
-      (∀ c, elem.head? = some c → c ≠ '\n' ∧ c ≠ ';' ∧ c ≠ ',') := by
-  unfold emitsSpace at h
-  cases hin : st.inline <;> cases elem <;> simp_all <;> grind
-
-/-- Calling Space() twice is the same as calling it once. -/
-theorem space_idempotent (st : WState) : space (space st) = space st := rfl
-
--- non-vacuity: the checker accepts a real rewrite and rejects a meaning change
-example : validFormat "import \"b\";import \"a\";option x={a:1,b<>};;message M{;}".toList
-    "import \"a\";\nimport \"b\";\n\noption x = {\n  a: 1\n  b: {}\n};\n\nmessage M {\n}\n".toList = true := by decide
-example : validFormat "option (r)=1;option (r)=2;".toList "option (r) = 2;\noption (r) = 1;\n".toList = false := by decide
-example : validFormat "message M{int32 a=-1;}".toList "message M {\n  int32 a = 1;\n}\n".toList = false := by decide
-example : validFormat "import \"a\";//c\nimport \"a\";".toList "import \"a\";\n".toList = false := by decide
 
 end BufProofs.C07
